@@ -144,7 +144,7 @@ func runC08(res *lib.Result, tier string, seed int64, args []string) error {
 			disk["f0.lua"], files["f0.lua"] = 0, c08Variant(0, 0)
 			disk["f1.lua"], files["f1.lua"] = 5, c08Variant(1, 5) // require("sub.f2")
 		}
-		k1Hist := hi%16 == 10 // the canonical history of the recorded finding K1 (runs in every tier)
+		k1Hist := hi%16 == 10 // the canonical history of the former finding K1 (runs in every tier; repaired)
 		if k1Hist {
 			// f0 uses the global f1 would define (undefined-variable warnings in its saved list), f1 is clean
 			disk["f0.lua"], files["f0.lua"] = 4, c08Variant(0, 4)
@@ -302,8 +302,8 @@ func runC08(res *lib.Result, tier string, seed int64, args []string) error {
 			script = []scripted{{0, 9, 9}}
 		}
 		if k1Hist {
-			// f0 gets an unsaved syntax error; f1 is edited to define the global and saved: the re-publish replaces what the
-			// client is shown for f0 (its saved list changed) although f0's buffer still has the syntax error
+			// f0 gets an unsaved syntax error; f1 is edited to define the global and saved: the re-publish used to replace what
+			// the client is shown for f0 (its saved list changed) although f0's buffer still has the syntax error
 			script = []scripted{{0, 0, 0}, {0, 2, 1}, {1, 0, 0}, {1, 2, 3}, {1, 5, 0}}
 		}
 		if hi%16 == 6 {
@@ -375,9 +375,8 @@ func runC08(res *lib.Result, tier string, seed int64, args []string) error {
 				sawFileEvent = true
 				disk[n] = forceV
 				os.WriteFile(filepath.Join(dir, n), []byte(c08Variant(i, forceV)), 0o644)
-				if buffer[n] != forceV {
-					dirty[n] = true
-				}
+				// (a document that had no unsaved edit does not become "unsaved" by this: the server shows the analysis of
+				// the new file, as a fresh one does; an unsaved edit stays one and keeps its view)
 				history = append(history, fmt.Sprintf("rewrite %s on disk (variant %d) while it is open + didChangeWatchedFiles", n, forceV))
 				sess.Watched(map[string]int{n: 2})
 				sess.Sync()
@@ -523,8 +522,9 @@ func runC08(res *lib.Result, tier string, seed int64, args []string) error {
 				}
 			}
 			ok = check(history[len(history)-1])
-			// (3) the view of files with unsaved edits
-			if ok {
+			// (3) the view of files with unsaved edits (also when the model comparison has failed: a deviation here is a
+			// failing input of the property itself)
+			{
 				act := actualView()
 				for f := range dirty {
 					histText := fmt.Sprintf("workspace %v\n%s", files, strings.Join(history, "\n"))
@@ -538,8 +538,8 @@ func runC08(res *lib.Result, tier string, seed int64, args []string) error {
 					}
 					if c08HasSyntaxError(buffer[f]) {
 						if len(syn) == 0 || len(non) > 0 {
-							res.HitKnown("C08-K1", "a full re-publish triggered by another file (save / file event) replaces the syntax errors shown for a still-unsaved buffer by saved diagnostics or clears them (pushAllDiagnosticsAgain re-shows the unsaved errors only when the new error map is empty): theorem C08.dirty_view_overridden", fmt.Sprintf("file %s has an unsaved buffer with a syntax error but the client holds %q\n%s", f, act[f], histText))
-							res.Dist("hit.C08-K1")
+							// (was finding K1 until pushAllDiagnosticsAgain was repaired to restore the view of unsaved buffers)
+							res.AddViolation("impl-vs-spec", fmt.Sprintf("file %s has an unsaved buffer with a syntax error but the client holds %q", f, act[f]), histText, false)
 						}
 					} else {
 						// a buffer without syntax errors: the saved non-syntax diagnostics (of the server's current saved map)
@@ -557,8 +557,7 @@ func runC08(res *lib.Result, tier string, seed int64, args []string) error {
 						}
 						sort.Strings(want)
 						if strings.Join(act[f], "\n") != strings.Join(want, "\n") {
-							res.HitKnown("C08-K1", "a full re-publish triggered by another file (save / file event) replaces the syntax errors shown for a still-unsaved buffer by saved diagnostics or clears them (pushAllDiagnosticsAgain re-shows the unsaved errors only when the new error map is empty): theorem C08.dirty_view_overridden", fmt.Sprintf("file %s has an unsaved buffer WITHOUT syntax errors but the client holds %q instead of the saved non-syntax diagnostics %q\n%s", f, act[f], want, histText))
-							res.Dist("hit.C08-K1")
+							res.AddViolation("impl-vs-spec", fmt.Sprintf("file %s has an unsaved buffer WITHOUT syntax errors but the client holds %q instead of the saved non-syntax diagnostics %q", f, act[f], want), histText, false)
 						}
 					}
 				}
